@@ -10,6 +10,7 @@ import (
 	"bytes"
 	"fmt"
 	"os"
+	"reflect"
 	"strings"
 	"testing"
 
@@ -45,6 +46,7 @@ type Rev struct {
 	XRef  string `json:"xref"`
 	Flate bool   `json:"flate,omitempty"`
 	Tight bool   `json:"tight,omitempty"` // object-stream header without a trailing blank (when the first member allows it)
+	Tail  bool   `json:"tail,omitempty"`  // object-stream data end with the last byte of the last member
 	Cells []Cell `json:"cells"`           // one per object number 1..N
 }
 
@@ -108,7 +110,7 @@ func build(c Case) built {
 	latest := map[int]*entry{}
 	var revs []pdfw.RawRevision
 	for k, rv := range c.Revs {
-		rr := pdfw.RawRevision{XRef: rv.XRef, Flate: rv.Flate, TightHead: rv.Tight, ObjStmNum: objstmNum(k), XRefNum: xrefNum(k)}
+		rr := pdfw.RawRevision{XRef: rv.XRef, Flate: rv.Flate, TightHead: rv.Tight, TightTail: rv.Tail, ObjStmNum: objstmNum(k), XRefNum: xrefNum(k)}
 		if rr.XRef != "stream" {
 			rr.XRef = "table"
 		}
@@ -138,11 +140,15 @@ func build(c Case) built {
 				switch cell.VKind {
 				case "dict":
 					o.Value = pdfw.Dict{{K: "V", V: pdfw.Int(tag(k, j))}, {K: "T", V: pdfw.Str{B: []byte(fmt.Sprintf("r%dn%d", k, j))}}}
-				case "arr":
+				case "arr", "arr2":
 					a := pdfw.Arr{pdfw.Int(tag(k, j))}
 					if j > 1 {
 						a = append(a, pdfw.NRef{Num: j - 1, Gen: gen[j-1]})
 						e.refGen = gen[j-1]
+						if cell.VKind == "arr2" {
+							// the same object once more, on a sibling branch
+							a = append(a, pdfw.Dict{{K: "Again", V: pdfw.NRef{Num: j - 1, Gen: gen[j-1]}}})
+						}
 					}
 					o.Value = a
 				case "dictref":
@@ -243,14 +249,23 @@ func expectObject(b built, num int, got core.Object) error {
 		} else if len(d) != 1 {
 			return fmt.Errorf("object %d: got %v, want 1 entry", num, got)
 		}
-	case "arr":
+	case "arr", "arr2":
 		a, ok := got.(core.Array)
 		if !ok || len(a) < 1 || a[0] != core.Int(t) {
 			return fmt.Errorf("object %d: got %v, want array starting with %d", num, got, t)
 		}
 		if num > 1 {
-			if len(a) != 2 {
-				return fmt.Errorf("object %d: got %v, want 2 elements", num, got)
+			want := 2
+			if e.vkind == "arr2" {
+				want = 3
+				if d, ok := a[len(a)-1].(core.Dict); !ok || len(a) != 3 {
+					return fmt.Errorf("object %d: got %v, want 3 elements, the last one a dictionary", num, got)
+				} else if ref, ok := d.Get("Again").(core.IndirectRef); !ok || ref.Number != num-1 {
+					return fmt.Errorf("object %d: /Again is %v, want a reference to %d", num, d.Get("Again"), num-1)
+				}
+			}
+			if len(a) != want {
+				return fmt.Errorf("object %d: got %v, want %d elements", num, got, want)
 			}
 			ref, ok := a[1].(core.IndirectRef)
 			if !ok || ref.Number != num-1 {
@@ -282,7 +297,7 @@ func deepJudgeable(b built, num int, c Case) bool {
 		if e == nil || !e.live {
 			return false
 		}
-		if (e.vkind != "arr" && e.vkind != "dictref") || j == 1 {
+		if (e.vkind != "arr" && e.vkind != "arr2" && e.vkind != "dictref") || j == 1 {
 			return true
 		}
 		prev := b.latest[j-1]
@@ -311,7 +326,7 @@ func checkDeep(b built, num int, got core.Object) error {
 			got = d.Get("P")
 			continue
 		}
-		if e.vkind != "arr" {
+		if e.vkind != "arr" && e.vkind != "arr2" {
 			return expectObject(b, j, got)
 		}
 		a, ok := got.(core.Array)
@@ -324,11 +339,25 @@ func checkDeep(b built, num int, got core.Object) error {
 			}
 			return nil
 		}
-		if len(a) != 2 {
-			return fmt.Errorf("ResolveDeep: at object %d got %v, want 2 elements", j, got)
+		want := 2
+		if e.vkind == "arr2" {
+			want = 3
+		}
+		if len(a) != want {
+			return fmt.Errorf("ResolveDeep: at object %d got %v, want %d elements", j, got, want)
 		}
 		if _, still := a[1].(core.IndirectRef); still {
 			return fmt.Errorf("ResolveDeep: at object %d the reference to %d was not resolved", j, j-1)
+		}
+		if e.vkind == "arr2" {
+			// the same object on the sibling branch: resolved to the same value
+			d, ok := a[2].(core.Dict)
+			if !ok {
+				return fmt.Errorf("ResolveDeep: at object %d the third element is %v, want a dictionary", j, a[2])
+			}
+			if !reflect.DeepEqual(d.Get("Again"), a[1]) {
+				return fmt.Errorf("ResolveDeep: at object %d the second reference to %d resolved to %v, the first to %v", j, j-1, d.Get("Again"), a[1])
+			}
 		}
 		got = a[1]
 	}
@@ -343,7 +372,17 @@ func runProgram(b built, c Case, path string, prog []Op, label string) error {
 	defer r.Close()
 	// one resolver.ObjectResolver for the whole program, never Reset: "the same objects [can] be resolved in
 	// different top-level calls" (resolver.go). Its depth limit is just enough for the longest chain of the case.
-	res := resolver.NewResolver(r, resolver.WithMaxDepth(2*c.N+3))
+	// the depth a chain of N arrays or dictionaries needs, and no more (a resolver that counts a level twice
+	// fails); a dictionary inside the array (arr2) is one more level per object
+	maxDepth := 2*c.N + 3
+	for _, rv := range c.Revs {
+		for _, cell := range rv.Cells {
+			if cell.VKind == "arr2" {
+				maxDepth = 3*c.N + 4
+			}
+		}
+	}
+	res := resolver.NewResolver(r, resolver.WithMaxDepth(maxDepth))
 	for i, op := range prog {
 		e := b.latest[op.Num]
 		live := e != nil && e.live
@@ -452,14 +491,14 @@ func checkCase(c Case) error {
 
 // ---- generator ----------------------------------------------------------------
 
-var vkinds = []string{"int", "dict", "arr", "dictref", "stream", "streamref", "bigstreamref"}
+var vkinds = []string{"int", "dict", "arr", "dictref", "stream", "streamref", "bigstreamref", "arr2"}
 
 func genCase(t *rapid.T) Case {
 	c := Case{N: rapid.IntRange(1, 8).Draw(t, "n")}
 	r := rapid.IntRange(1, 5).Draw(t, "r")
 	c.EOL = rapid.SampledFrom([]string{"\n", "\n", "\r\n", "\r"}).Draw(t, "eol")
 	for k := 0; k < r; k++ {
-		rv := Rev{XRef: rapid.SampledFrom([]string{"table", "stream"}).Draw(t, "xref"), Flate: rapid.Bool().Draw(t, "flate"), Tight: rapid.Bool().Draw(t, "tightHead")}
+		rv := Rev{XRef: rapid.SampledFrom([]string{"table", "stream"}).Draw(t, "xref"), Flate: rapid.Bool().Draw(t, "flate"), Tight: rapid.Bool().Draw(t, "tightHead"), Tail: rapid.Bool().Draw(t, "tightTail")}
 		for j := 0; j < c.N; j++ {
 			cell := Cell{Kind: rapid.SampledFrom([]string{"absent", "def", "def", "free"}).Draw(t, "cell")}
 			if cell.Kind == "def" {
@@ -575,7 +614,7 @@ func TestExhaustiveSmall(t *testing.T) {
 			c := Case{N: n}
 			x := h
 			for k := 0; k < r; k++ {
-				rv := Rev{XRef: "table", Flate: (h+k)%2 == 0, Tight: (h/3+k)%2 == 0}
+				rv := Rev{XRef: "table", Flate: (h+k)%2 == 0, Tight: (h/3+k)%2 == 0, Tail: (h/5+k)%2 == 0}
 				if xk>>uint(k)&1 == 1 {
 					rv.XRef = "stream"
 				}
@@ -604,17 +643,17 @@ func TestExhaustiveSmall(t *testing.T) {
 	}
 	vr.Exhaustive(fmt.Sprintf("all histories over n=%d object numbers x r=%d revisions x 2^%d xref kinds", n, r, r))
 	// compact object streams: one or two revisions with a cross-reference stream, 1-4 members that are all short
-	// (one-digit numbers and offsets), every assignment of {array, integer} to the members, header tight or not
+	// (one-digit numbers and offsets), every assignment of {array, integer} to the members, header and tail tight or not
 	cnt := 0
 	for m := 1; m <= 4; m++ {
 		for kinds := 0; kinds < 1<<m; kinds++ {
-			for _, tight := range []bool{true, false} {
+			for _, tight := range []int{0, 1, 2, 3} {
 				for _, flate := range []bool{true, false} {
 					for revs := 1; revs <= 2; revs++ {
 						cnt++
 						c := Case{N: m}
 						for k := 0; k < revs; k++ {
-							rv := Rev{XRef: "stream", Flate: flate, Tight: tight}
+							rv := Rev{XRef: "stream", Flate: flate, Tight: tight&1 == 1, Tail: tight&2 == 2}
 							for j := 0; j < m; j++ {
 								vk := "int"
 								if kinds>>uint(j)&1 == 1 {
@@ -637,7 +676,7 @@ func TestExhaustiveSmall(t *testing.T) {
 			}
 		}
 	}
-	vr.Exhaustive(fmt.Sprintf("compact object streams (1-4 short members, tight/loose header): %d files", cnt))
+	vr.Exhaustive(fmt.Sprintf("compact object streams (1-4 short members, tight/loose header and tail): %d files", cnt))
 }
 
 var _ = strings.Join
